@@ -9,13 +9,13 @@ import WowSrp.Gen.Constants
 namespace WowSrp
 
 def expected_structuralVanilla : List String := ["Default for ProofSeed @src/vanilla_header/mod.rs",
-  "ClientHeader @src/vanilla_header/mod.rs: Clone Copy Ord PartialOrd Eq PartialEq Hash",
-  "DecrypterHalf @src/vanilla_header/decrypt.rs: Clone Ord PartialOrd Eq PartialEq Hash",
-  "EncrypterHalf @src/vanilla_header/encrypt.rs: Clone Ord PartialOrd Eq PartialEq Hash",
-  "HeaderCrypto @src/vanilla_header/mod.rs: Clone Ord PartialOrd Eq PartialEq Hash",
-  "ProofSeed @src/vanilla_header/mod.rs: Clone Copy Ord PartialOrd Eq PartialEq Hash",
-  "ServerHeader @src/vanilla_header/mod.rs: Clone Copy Ord PartialOrd Eq PartialEq Hash"]
+  "ClientHeader @src/vanilla_header/mod.rs: Clone Copy Ord PartialOrd Eq PartialEq Hash | size u16 opcode u32",
+  "DecrypterHalf @src/vanilla_header/decrypt.rs: Clone Ord PartialOrd Eq PartialEq Hash | session_key index u8 previous_value u8",
+  "EncrypterHalf @src/vanilla_header/encrypt.rs: Clone Ord PartialOrd Eq PartialEq Hash | session_key index u8 previous_value u8",
+  "HeaderCrypto @src/vanilla_header/mod.rs: Clone Ord PartialOrd Eq PartialEq Hash | decrypt DecrypterHalf encrypt EncrypterHalf",
+  "ProofSeed @src/vanilla_header/mod.rs: Clone Copy Ord PartialOrd Eq PartialEq Hash | seed u32",
+  "ServerHeader @src/vanilla_header/mod.rs: Clone Copy Ord PartialOrd Eq PartialEq Hash | size u16 opcode u16"]
 
-theorem structuralVanilla_ok : Gen.structuralVanilla = expected_structuralVanilla := by decide
+theorem structuralVanilla_ok : Gen.structuralVanilla = expected_structuralVanilla := by decide +kernel
 
 end WowSrp
